@@ -35,14 +35,18 @@ const (
 	nsFooer
 	nsPFoo
 	nsPBar
+	nsCfg
+	nsHost
+	nsPort
 	nsTypes
 )
 
 type nsSource struct {
 	out  int   // provided type
 	deps []int // needed types (for a binding: the concrete type)
-	bind bool
-	name string
+	bind  bool
+	field bool
+	name  string
 }
 
 type nsItem struct {
@@ -75,7 +79,13 @@ func H_newset() {
 		recv := types.NewVar(token.NoPos, e.pkg, "x", types.NewPointer(n))
 		n.AddMethod(types.NewFunc(token.NoPos, e.pkg, "M", types.NewSignature(recv, nil, nil, false)))
 	}
-	goType := []types.Type{nsA: A, nsB: B, nsO: O, nsFooer: Fooer, nsPFoo: types.NewPointer(Foo), nsPBar: types.NewPointer(Bar)}
+	Host := named("Host", types.Typ[types.String])
+	Port := named("Port", types.Typ[types.Int])
+	Cfg := named("Cfg", types.NewStruct([]*types.Var{
+		types.NewField(token.NoPos, e.pkg, "Host", Host, false),
+		types.NewField(token.NoPos, e.pkg, "Port", Port, false),
+	}, nil))
+	goType := []types.Type{nsA: A, nsB: B, nsO: O, nsFooer: Fooer, nsPFoo: types.NewPointer(Foo), nsPBar: types.NewPointer(Bar), nsCfg: Cfg, nsHost: Host, nsPort: Port}
 
 	fn := func(name string, out int, deps ...int) *types.Func {
 		var ps []*types.Var
@@ -87,7 +97,7 @@ func H_newset() {
 	}
 	funcs := map[string]*types.Func{
 		"NewA": fn("NewA", nsA), "NewA2": fn("NewA2", nsA), "NewB": fn("NewB", nsB, nsA), "NewAB": fn("NewAB", nsA, nsB),
-		"NewO": fn("NewO", nsO), "NewFoo": fn("NewFoo", nsPFoo, nsFooer), "NewBar": fn("NewBar", nsPBar),
+		"NewO": fn("NewO", nsO), "NewFoo": fn("NewFoo", nsPFoo, nsFooer), "NewBar": fn("NewBar", nsPBar), "NewCfg": fn("NewCfg", nsCfg),
 	}
 	fnExpr := func(name string) func() ast.Expr {
 		return func() ast.Expr { return e.ident(name, funcs[name]) }
@@ -100,6 +110,14 @@ func H_newset() {
 			return &ast.CallExpr{Fun: e.wireFun("Bind", false), Args: []ast.Expr{
 				newOf(e.typeIdent(Fooer), Fooer),
 				newOf(&ast.StarExpr{X: e.typeIdent(conc)}, types.NewPointer(conc)),
+			}}
+		}
+	}
+	fieldsOfExpr := func(field string) func() ast.Expr {
+		return func() ast.Expr {
+			return &ast.CallExpr{Fun: e.wireFun("FieldsOf", false), Args: []ast.Expr{
+				newOf(e.typeIdent(Cfg), Cfg),
+				e.typed(&ast.BasicLit{Kind: token.STRING, Value: `"` + field + `"`}, types.Typ[types.String]),
 			}}
 		}
 	}
@@ -156,6 +174,12 @@ func H_newset() {
 	for i := 14; i < len(pool); i++ {
 		pool[i].expr = inline(pool[i].imports...)
 	}
+	// field providers and the provider of their struct (several wire.FieldsOf items may stand in one call)
+	pool = append(pool,
+		nsItem{label: "NewCfg", expr: fnExpr("NewCfg"), own: src("NewCfg", nsCfg)},
+		nsItem{label: `FieldsOf(Cfg,"Host")`, expr: fieldsOfExpr("Host"), own: []nsSource{{out: nsHost, deps: []int{nsCfg}, field: true, name: "Host"}}},
+		nsItem{label: `FieldsOf(Cfg,"Port")`, expr: fieldsOfExpr("Port"), own: []nsSource{{out: nsPort, deps: []int{nsCfg}, field: true, name: "Port"}}},
+	)
 	// declarations of the set variables: var <Name> = <initializer>, each in its own 100-byte stretch of sets.go
 	initOf := map[string]func() ast.Expr{
 		"Base":   inline(5, 4),
@@ -307,13 +331,15 @@ func H_newset() {
 	}
 	for _, s := range all {
 		pt := pset.For(goType[s.out])
-		vA("C10,C05", !pt.IsNil(), "every source of an accepted set is retrievable under its type")
+		vA("C10,C05,C08", !pt.IsNil(), "every source of an accepted set is retrievable under its type (no item is dropped while the set is assembled)")
 		if pt.IsNil() {
 			continue
 		}
 		if s.bind {
 			conc := pset.For(goType[s.deps[0]])
 			vA("C11", pt.IsProvider() && conc.IsProvider() && pt.Provider() == conc.Provider(), "an interface binding designates the provider of its concrete type")
+		} else if s.field {
+			vA("C02,C10,C08,C12", pt.IsField() && pt.Field().Name == s.name, "a field's type is provided by the field provider written for it (no wire.FieldsOf item is lost)")
 		} else {
 			vA("C02,C10", pt.IsProvider() && pt.Provider().Name == s.name, "a type is provided by the function written for it")
 		}
